@@ -21,6 +21,7 @@ func TestVerif(t *testing.T) {
 			"histories: every history of 1..4 (thorough 1..5) operations over {Put a c0, Put a c1, Put b c0, Put b c2, Get a, Get b, Delete a, Delete b, Put a colon-username} for 4 address pairs x every document; " +
 			"every answer is compared with a JSON-document model (Get = what was put / what the docker format says a pre-existing entry means; Delete removes that key only); after the last operation the file must be one complete JSON object equal to the model " +
 			"(every other top-level key and every other entry equal as JSON values, numbers exactly), have mode 0600 when it was rewritten, and load into a fresh store that answers like the model. " +
+			"After every history the store that executed it and a fresh store loaded from the file are asked Get for both addresses, the bare host name h and an unrelated host: the fresh store must answer like the model, and the two stores must agree wherever at most one entry can be meant. " +
 			"crash: the last operation of every such history of length <= 3 (thorough <= 4) is interrupted before each of its mutating file-system operations in turn (mkdir, create-temp, fchmod, write, rename); the file at the config path must be the old or the new complete document (new: mode 0600). " +
 			"concurrent: 3 goroutines x one operation each, every multiset of {Put a, Put b, Delete a, Get a} except three Gets (repeated Puts carry different credentials) x 3 (thorough 6) document/address-pair combinations, all schedules with at most 2 (thorough 3) deviations from each of 3 default schedulers; " +
 			"final file = model after some permutation, every Get answer = what some permutation allows at that point. " +
